@@ -13,10 +13,12 @@ OUTSIDE = ['64-bit format lookup tables', 'segmented address ranges', 'more than
 
 
 def _aranges_section(ctx, cfg):
-    little, addr = cfg['little'], cfg['addr']
+    little = cfg['little']
     sec = []
     want = []
     for s, ntup in enumerate(cfg['sets']):
+        # address_size is a field of every set header: the sets of one section may differ (objects for different targets / code models linked together)
+        addr = cfg['addrs'][s] if cfg.get('addrs') else cfg['addr']
         info_off = ctx.uint('set%d.info_offset' % s, 32)
         ver = ctx.uint('set%d.version' % s, 16)
         hdr_rest = enc.enc_int(ver, 2, little) + enc.enc_int(info_off, 4, little) + [addr, 0]
@@ -58,10 +60,10 @@ def h_aranges(ctx):
         for w in want:
             ctx.check('aranges/entries/tuple-present', ctx.lor(*[ctx.land(e.begin_addr == w['begin'], e.length == w['length'], e.info_offset == w['info_offset'],
                                                                           e.unit_length == w['unit_length'], e.version == w['version'],
-                                                                          e.address_size == addr, e.segment_size == 0) for e in ents]))
+                                                                          e.address_size == w['address_size'], e.segment_size == 0) for e in ents]))
         for a, b in zip(ents, ents[1:]):
             ctx.check('aranges/entries/sorted', a.begin_addr <= b.begin_addr)
-    q = ctx.uint('query', 8 * addr)
+    q = ctx.uint('query', 8 * max(cfg.get('addrs') or [addr]))
     got = ar.cu_offset_at_addr(q)
     hit = None
     for w in want:
@@ -218,8 +220,9 @@ TIER_PARAMS = {'quick': {'conc_cap': 300}, 'thorough': {'conc_cap': 600}}
 HARNESSES = [
     H('h13_1_aranges', h_aranges,
       lambda tier: [dict(little=l, addr=a, sets=s) for l, a in ((True, 8), (False, 4), (True, 4), (False, 8))
-                    for s in ([0], [1], [2], [1, 1], [0, 2]) + (([2, 2], [1, 0, 1]) if tier == 'thorough' else ())], expect=('ok', 'miss'),
-      desc='ARanges over generated sections (1-3 sets x 0-2 tuples, tuple alignment padding, header values symbolic) with symbolic begin/length under the disjointness '
+                    for s in ([0], [1], [2], [1, 1], [0, 2]) + (([2, 2], [1, 0, 1]) if tier == 'thorough' else ())] +
+                   [dict(little=l, addr=a, sets=s, addrs=ad) for l, a in ((True, 8), (False, 4)) for s, ad in (([1, 1], [4, 8]), ([1, 1], [8, 4]), ([1, 0, 1], [4, 8, 4]))], expect=('ok', 'miss'),
+      desc='ARanges over generated sections (1-3 sets x 0-2 tuples, tuple alignment padding, header values symbolic) with symbolic begin/length (sets of one section with different address sizes included) under the disjointness '
            'assumption and a symbolic query address: offset of the unique containing range, None outside every range (also for a table without tuples); entries expose every tuple with its set header, sorted'),
     H('h13_1_aranges_absent', h_aranges_absent, lambda tier: [dict()], expect=('ok',), desc='no .debug_aranges section'),
     H('h13_2_namelut', h_namelut,
